@@ -15,14 +15,17 @@
     and, at run level, the whole INSIDE pass: inside values and the returned marginal
     likelihood of the logarithmic run are the logarithms of those of the linear run, for every
     input (any DAG, several trees, span fractions), provided no linear denominator is 0.
-    Also at run level: outside_maximization returns the same indices in both spaces.
-    NOT proved: the same run-level chaining for outside_pass (its operations are covered by
-    [C12_homomorphism_partial]; the chaining needs the invariants that no standardisation
-    maximum vanishes and that 0/0 only occurs with div_0_null); that part of C12 is tested
-    (both spaces run on generated inputs, tools/props/c12.py). *)
+    Also at run level: inside + outside pass together ([C12_inside_outside_agrees]: the returned
+    likelihood and every posterior grid correspond, under the explicit premise that the linear
+    run never divides by 0 except 0/0 under div_0_null), and outside_maximization returns the
+    same indices in both spaces.
+    NOT proved: that the premise "0/0 only under div_0_null" always holds for states produced by
+    inside_pass (it does structurally -- a zero g_i forces a zero parent inside value -- but here
+    it is a hypothesis); the cached-g_i variant; the final normalisation / mean and variance in
+    core.py.  Those are tested (both spaces run on generated inputs, tools/props/c12.py). *)
 From Coq Require Import List Reals.
 From TsdateV Require Import lib.Num model.Discrete model.DiscreteER proofs.DiscreteBase proofs.DiscreteInside
-  proofs.DiscreteLog proofs.DiscreteLogRun proofs.DiscreteMaxRun.
+  proofs.DiscreteOutside proofs.DiscreteLog proofs.DiscreteLogRun proofs.DiscreteOutRun proofs.DiscreteMaxRun.
 Import ListNotations.
 Open Scope R_scope.
 
@@ -89,6 +92,40 @@ Theorem C12_inside_pass_agrees :
   rel mL mR.
 Proof. exact inside_pass_agree. Qed.
 Print Assumptions C12_inside_pass_agrees.
+
+(** run level, inside + outside pass.  [edge_safe G likR sfR stR std outR e]
+    (proofs/DiscreteOutRun.v) is the premise of the property for one edge of the LINEAR run:
+    wherever g_i of the edge is 0 the parent's inside value is 0 (so only 0/0 is divided, under
+    div_0_null), and, with outside standardisation, the vector whose maximum is divided by has
+    a non-zero maximum.  Then the marginal likelihood and, for every non-fixed child, the
+    posterior grid inside*outside of the logarithmic run are the logarithms of the linear ones. *)
+Theorem C12_inside_outside_agrees :
+  forall (G : nat) (likL : nat -> nat -> nat -> ER) (likR : nat -> nat -> nat -> R),
+  (forall e i j, rel (likL e i j) (likR e i j)) ->
+  forall (sfR : nat -> R), (forall e, 0 < sfR e) ->
+  forall (fixed : nat -> bool) (priorL : nat -> list ER) (priorR : nat -> list R),
+  (forall u, Forall2 rel (priorL u) (priorR u)) ->
+  forall es es_out (roots : list (nat * R)) nonfixed std ign num_nodes stL mL stR mR outL outR,
+  let gs := groupby e_parent es in
+  let gso := groupby e_child es_out in
+  let rootsL := map (fun rf => (fst rf, EFin (snd rf))) roots in
+  let sfL := fun e => EFin (sfR e) in
+  inside_order fixed [] gs -> outside_order (map fst gso) [] gso ->
+  (forall rf, In rf roots -> 0 < snd rf /\ fixed (fst rf) = false /\ In (fst rf) (map fst gs)) ->
+  inside_pass LogER G likL sfL fixed priorL true es rootsL = Some (stL, mL) ->
+  inside_pass LinR G likR sfR fixed priorR true es roots = Some (stR, mR) ->
+  outside_pass LogER G likL sfL fixed stL false std ign num_nodes (EFin 0) es_out rootsL nonfixed = Some outL ->
+  outside_pass LinR G likR sfR fixed stR false std ign num_nodes 0 es_out roots nonfixed = Some outR ->
+  (forall g d, In g gs -> fixed (fst g) = false -> i_den LinR stR (fst g) = Some d -> d <> 0) ->
+  (forall g e, In g gso -> In e (snd g) -> edge_safe G likR sfR stR std outR e) ->
+  (std = true -> forall g val, In g gso -> fixed (fst g) = false ->
+     out_edges LinR G likR sfR fixed stR false std ign num_nodes outR (repeat 1 G) (snd g) = Some val -> npmax LinR val <> 0) ->
+  rel mL mR /\
+  forall g, In g gso -> fixed (fst g) = false ->
+    exists pl px, posterior_grid LogER stL outL (fst g) = Some pl /\ posterior_grid LinR stR outR (fst g) = Some px /\
+      Forall2 rel pl px.
+Proof. exact inside_outside_agree. Qed.
+Print Assumptions C12_inside_outside_agrees.
 
 (** run level, maximisation: given inside values and edge likelihoods that correspond under exp
     (positive likelihoods), outside_maximization returns exactly the same grid indices in the
